@@ -178,3 +178,90 @@ Print Assumptions C07_positions_increasing.
 Print Assumptions C07_not_reported_partial.
 Print Assumptions C07_sender_key_recognised_partial.
 Print Assumptions C07_complete_partial.
+
+(* ==== end-to-end compositions (Proofs/ScanEndToEnd.v) ============================================================ *)
+From MRS Require Import Proofs.ScanEndToEnd.
+
+(* MATCHES -> REPORTED, for ARBITRARY outputs (the converse of C07_sound_partial).  If the scan succeeds with an ACCEPTED spend key S
+   (PublicKey::from_slice accepts it) and the output at position k `matches` an in-range index idx under key K (the algebraic condition of
+   C07_sound_partial / C07_not_reported_partial), where K is the first TxPublicKey, or the additional key at position k while the main
+   key matches no in-range index, then position k IS reported, with key K and an in-range index whose spend key equals that of idx -
+   idx itself under the explicit hypothesis that no other in-range index has the same spend key *)
+Theorem C07_matches_reported_partial : forall (E : EdOps) (LW : EdLaws E) (Hs : hs_fun) (Hb : bytes -> bytes) v S a b c d p rct l fields main k o K idx,
+  pk_from_slice S = Ok S ->
+  prefix_check_outputs Hs Hb v S a b c d p rct = SOk l ->
+  raw_try_parse valid_pk_b (extra p) = Ok fields -> tx_pubkey fields = Some main ->
+  nth_error (outputs p) k = Some o ->
+  in_ranges a b c d idx -> matches Hs Hb v S (N.of_nat k) o K idx ->
+  (K = main \/
+   (nth_error (adds_of fields) k = Some K /\
+    forall idx2, in_ranges a b c d idx2 -> ~ matches Hs Hb v S (N.of_nat k) o main idx2)) ->
+  exists w, In w l /\ ow_pos w = N.of_nat k /\ ow_out w = o /\ ow_key w = K /\ in_ranges a b c d (ow_index w) /\
+    get_spend_public_key Hs v S (ow_index w) = get_spend_public_key Hs v S idx /\
+    ((forall idx2, in_ranges a b c d idx2 -> get_spend_public_key Hs v S idx2 = get_spend_public_key Hs v S idx -> idx2 = idx) ->
+       ow_index w = idx).
+Proof. intros E LW Hs Hb. exact (matches_reported Hs Hb). Qed.
+
+(* REPORTED <-> MATCHES, for every transaction and every position (C07_sound_partial one way, C07_matches_reported_partial the other):
+   position k is reported iff the main key matches some in-range index or the additional key at position k does *)
+Theorem C07_reported_iff_matches_partial : forall (E : EdOps) (LW : EdLaws E) (Hs : hs_fun) (Hb : bytes -> bytes) v S a b c d p rct l fields main k o,
+  pk_from_slice S = Ok S ->
+  prefix_check_outputs Hs Hb v S a b c d p rct = SOk l ->
+  raw_try_parse valid_pk_b (extra p) = Ok fields -> tx_pubkey fields = Some main ->
+  nth_error (outputs p) k = Some o ->
+  ((exists w, In w l /\ ow_pos w = N.of_nat k) <->
+   ((exists idx, in_ranges a b c d idx /\ matches Hs Hb v S (N.of_nat k) o main idx) \/
+    (exists K idx, nth_error (adds_of fields) k = Some K /\ in_ranges a b c d idx /\ matches Hs Hb v S (N.of_nat k) o K idx))).
+Proof. intros E LW Hs Hb. exact (reported_iff_matches Hs Hb). Qed.
+
+(* the hypothesis `pk_from_slice S = Ok S` of the two theorems above cannot be dropped: in an instance of EdLaws with a lenient
+   decoder (Proofs/ScanEndToEnd.v toy2: Z/l, every 32-byte string decodes), a wallet whose spend key is STORED as a non-canonical
+   encoding (possible only through the public field of PublicKey) does not report an output that matches its primary address:
+   the table is keyed by the stored bytes, the looked-up candidate P - Hs(rv||i)G is a canonical encoding *)
+Theorem C07_matches_reported_unaccepted_spend_key_refuted : exists (E : EdOps) (LW : EdLaws E) (Hs : hs_fun) (Hb : bytes -> bytes) v S a b c d p rct fields main o idx,
+    pk_from_slice S <> Ok S /\
+    prefix_check_outputs Hs Hb v S a b c d p rct = SOk [] /\
+    raw_try_parse valid_pk_b (extra p) = Ok fields /\ tx_pubkey fields = Some main /\
+    nth_error (outputs p) 0 = Some o /\ in_ranges a b c d idx /\ matches Hs Hb v S 0%N o main idx.
+Proof. exact matches_reported_unaccepted_spend_key_refuted. Qed.
+
+(* non-vacuity: on the lenient toy instance the hypotheses of C07_matches_reported_partial hold for both outputs of a sender-built
+   transaction (accepted spend key; subaddress (0,1) under the additional key at position 0, primary address under the main key at 1) *)
+Example C07_ex_toy_matches :
+  @pk_from_slice toy2_ops t2_Sb = Ok t2_Sb /\
+  @matches toy2_ops toyHs toyHb t2_v t2_Sb 0%N t2_o0 t2_add0 (0%N, 1%N) /\
+  @matches toy2_ops toyHs toyHb t2_v t2_Sb 1%N t2_o1 t2_main (0%N, 0%N).
+Proof. exact t2_matches. Qed.
+Example C07_ex_toy2_laws : EdLaws toy2_ops.
+Proof. exact toy2_laws. Qed.
+
+Check C07_matches_reported_partial : forall (E : EdOps) (LW : EdLaws E) (Hs : hs_fun) (Hb : bytes -> bytes) v S a b c d p rct l fields main k o K idx,
+  pk_from_slice S = Ok S ->
+  prefix_check_outputs Hs Hb v S a b c d p rct = SOk l ->
+  raw_try_parse valid_pk_b (extra p) = Ok fields -> tx_pubkey fields = Some main ->
+  nth_error (outputs p) k = Some o ->
+  in_ranges a b c d idx -> matches Hs Hb v S (N.of_nat k) o K idx ->
+  (K = main \/
+   (nth_error (adds_of fields) k = Some K /\
+    forall idx2, in_ranges a b c d idx2 -> ~ matches Hs Hb v S (N.of_nat k) o main idx2)) ->
+  exists w, In w l /\ ow_pos w = N.of_nat k /\ ow_out w = o /\ ow_key w = K /\ in_ranges a b c d (ow_index w) /\
+    get_spend_public_key Hs v S (ow_index w) = get_spend_public_key Hs v S idx /\
+    ((forall idx2, in_ranges a b c d idx2 -> get_spend_public_key Hs v S idx2 = get_spend_public_key Hs v S idx -> idx2 = idx) ->
+       ow_index w = idx).
+Check C07_reported_iff_matches_partial : forall (E : EdOps) (LW : EdLaws E) (Hs : hs_fun) (Hb : bytes -> bytes) v S a b c d p rct l fields main k o,
+  pk_from_slice S = Ok S ->
+  prefix_check_outputs Hs Hb v S a b c d p rct = SOk l ->
+  raw_try_parse valid_pk_b (extra p) = Ok fields -> tx_pubkey fields = Some main ->
+  nth_error (outputs p) k = Some o ->
+  ((exists w, In w l /\ ow_pos w = N.of_nat k) <->
+   ((exists idx, in_ranges a b c d idx /\ matches Hs Hb v S (N.of_nat k) o main idx) \/
+    (exists K idx, nth_error (adds_of fields) k = Some K /\ in_ranges a b c d idx /\ matches Hs Hb v S (N.of_nat k) o K idx))).
+Check C07_matches_reported_unaccepted_spend_key_refuted : exists (E : EdOps) (LW : EdLaws E) (Hs : hs_fun) (Hb : bytes -> bytes) v S a b c d p rct fields main o idx,
+    pk_from_slice S <> Ok S /\
+    prefix_check_outputs Hs Hb v S a b c d p rct = SOk [] /\
+    raw_try_parse valid_pk_b (extra p) = Ok fields /\ tx_pubkey fields = Some main /\
+    nth_error (outputs p) 0 = Some o /\ in_ranges a b c d idx /\ matches Hs Hb v S 0%N o main idx.
+
+Print Assumptions C07_matches_reported_partial.
+Print Assumptions C07_reported_iff_matches_partial.
+Print Assumptions C07_matches_reported_unaccepted_spend_key_refuted.
